@@ -230,6 +230,9 @@ public:
   inline app_pointer& operator=(app_pointer&& other)
   {
     if (this != &other) {
+      // Release the token currently owned (if any) before taking over the
+      // other one
+      unregister();
       move_obj(std::forward<app_pointer>(other));
     }
     return *this;
